@@ -42,6 +42,7 @@ TYPES = (
     ContentType("application", "octet-stream"),
     ContentType("text", "x-t", {"k": "v w", "j": "1"}),
     ContentType("text", "csv", {"fields": "ts,level", "charset": "utf8"}),
+    ContentType("application", "octet-stream", {"type": "core-dump", "padding": "8"}),  # (the default type, with parameters of its own)
 )
 NAMES = ("d1", "détail")
 # a second name set: the empty string is a legal detail name too
@@ -62,9 +63,9 @@ class _Case(testtools.TestCase):
 def make_test(kind, n, tid=None):
     if kind == "case":
         t = _Case("test_x")
-        t._vt_id = tid or "case%d" % n
+        t._vt_id = tid if tid is not None else "case%d" % n
         return t
-    return PlaceHolder(tid or "ph%d" % n)
+    return PlaceHolder(tid if tid is not None else "ph%d" % n)
 
 
 def payload_alphabet():
@@ -159,6 +160,7 @@ def run_history(tests, setting):
     names = NAME_SETS[setting[3]] if len(setting) > 3 else NAMES
     target_stopped = len(setting) > 4 and setting[4] == "stopped"
     fresh_types = len(setting) > 4 and setting[4] == "freshtypes"
+    empty_id = len(setting) > 4 and setting[4] == "emptyid"  # the first test's id is the empty string
     same_id = len(setting) > 4 and setting[4] == "sameid"  # a test that is run again (retried) within the run
     stream = rec.Stream()
     ext = rec.Ext()
@@ -176,7 +178,7 @@ def run_history(tests, setting):
         if run_tags:
             top.tags({"run"}, set())
         for n, (tk, outcome, form, payload) in enumerate(tests):
-            t = make_test(tk, n, "retried" if same_id else None)
+            t = make_test(tk, n, "retried" if same_id else "" if (empty_id and n == 0) else None)
             if explicit:
                 top.time(times_of(n, explicit)[0])
             top.startTest(t)
@@ -448,6 +450,7 @@ def work_items(tier):
         items.append(([("case",) + a, ("placeholder",) + b], (True, True, True, 0, "stopped")))
         items.append(([("case",) + a, ("placeholder",) + b], (False, True, "back", 0)))
         items.append(([("case",) + a, ("placeholder",) + b], (True, True, True, 0, "sameid")))
+        items.append(([("placeholder",) + a, ("case",) + b], (True, True, True, 0, "emptyid")))
         items.append(([("case",) + a, ("placeholder",) + b], (True, "strip", True, 0)))
     for ti, tj in itertools.product(range(len(TYPES)), repeat=2):
         items.append(([("case", "addSuccess", "details", ((1, ti),)), ("placeholder", "addError", "details", ((1, tj), (2, ti)))], (False, False, True, 0, "freshtypes")))
